@@ -4,6 +4,7 @@ package kvstore
 
 import (
 	"errors"
+	"io"
 
 	"github.com/olric-data/olric/internal/kvstore/entry"
 	"github.com/olric-data/olric/pkg/storage"
@@ -29,6 +30,11 @@ func VerifC17_EntryRoundTrip() {
 	nb.SetTTL(vpI64("nttl"))
 	nb.SetTimestamp(vpI64("nts"))
 	nbErr := s.Put(77, nb)
+	if vpChoose("garbage", 2) == 1 {
+		// the neighbour is overwritten once, so the table holds a dead version before the entry under test
+		nb.SetValue(vpBytes("nval2", 1))
+		nbErr = s.Put(77, nb)
+	}
 
 	e := entry.New()
 	e.SetKey(vpString("key", klen))
@@ -78,6 +84,34 @@ func VerifC17_EntryRoundTrip() {
 	} else {
 		_, gerr := s.Get(55)
 		vpAssert(errors.Is(gerr, storage.ErrKeyNotFound), "rejected-entry-not-stored")
+	}
+	// migration to another member: every table is exported and imported into a fresh store
+	if vpChoose("migrate", 2) == 1 {
+		dst := vpMkStore(size)
+		it := s.TransferIterator()
+		for rounds := 0; it.Next(); rounds++ {
+			vpAssert(rounds < 4, "migration-terminates")
+			if rounds >= 4 {
+				break
+			}
+			data, idx, xerr := it.Export()
+			if xerr == io.EOF {
+				break
+			}
+			vpAssert(xerr == nil, "migration-export")
+			ierr := dst.Import(data, func(hkey uint64, me storage.Entry) error { return dst.Put(hkey, me) })
+			vpAssert(ierr == nil, "migration-import")
+			vpAssert(it.Drop(idx) == nil, "migration-drop")
+		}
+		s = dst
+		if err == nil {
+			g, gerr := s.Get(55)
+			vpAssert(gerr == nil, "migrated-get")
+			if gerr == nil {
+				vpAssert(vpAnd(g.Key() == e.Key(), vpBytesEq(g.Value(), want)), "migrated-key-value")
+				vpAssert(vpAnd(g.TTL() == e.TTL(), g.Timestamp() == e.Timestamp()), "migrated-meta")
+			}
+		}
 	}
 	// neighbour untouched
 	if nbErr == nil {
